@@ -77,7 +77,7 @@ def run_tlc(module: str, cfg: str, wd: Path, *, workers: int | str = 1, simulate
     root = wd / f"{module}.tla"
     if not root.exists():
         root = SPEC / f"{module}.tla"
-    java = ["java", "-XX:+UseParallelGC", f"-Xmx{heap}", f"-DTLA-Library={SPEC}"]
+    java = ["java", "-XX:+UseParallelGC", f"-Xmx{heap}", "-Xss256m", f"-DTLA-Library={SPEC}"]
     if dfs:
         java.append("-Dtlc2.tool.queue.IStateQueue=StateDeque")
     cmd = java + ["-cp", f"{JAR}:{DEPS}", "tlc2.TLC", "-workers", str(workers), "-metadir", str(wd / "meta"),
